@@ -581,11 +581,16 @@ let () =
         else if l = "VARIANT plain" then cur := Some plain
         else match !cur with Some c -> c := l :: !c | None -> ()) lsa;
       let crashed = Array.exists (fun l -> starts_with "MONITOR" l) lsa in
-      let stalled = Array.exists (fun l -> starts_with "RUN iterations=" l && (let n = String.length l in n >= 5 && String.sub l (n - 5) 5 = "LIMIT")) lsa in
-      if nl > max_lines || stalled then begin
+      let has_word wd l = List.mem wd (words l) in
+      let stalled = Array.exists (fun l -> starts_with "RUN iterations=" l && has_word "LIMIT" l) lsa in
+      (* runw: a socket whose last asendto was short / blocked and that the library does not watch for writability *)
+      let unwatched = Array.exists (fun l -> starts_with "RUN iterations=" l &&
+                                             (match kv "unwatched" (words l) with Some v -> v <> "[]" | None -> false)) lsa in
+      if nl > max_lines || stalled || unwatched then begin
         Printf.printf "CASE %d %s:stalled\n" k fam;
         if not crashed then Printf.printf "FAIL %d stall the transfer did not complete: %s\n" k
-            (if stalled then "an event loop of the history hit its iteration limit" else Printf.sprintf "%d log lines" nl)
+            (if unwatched then "unsent bytes on a socket the library does not watch for writability (runw)"
+             else if stalled then "an event loop of the history hit its iteration limit" else Printf.sprintf "%d log lines" nl)
       end else
       let a = analyze head fam (Array.of_list (List.rev !seg)) in
       if crashed || !plain = [] then begin
